@@ -553,13 +553,15 @@ def run(ctx):
     n2 = fuzz(ctx, 1500 if thorough else 150)
     n3 = run_directed(ctx)
     n4 = run_prefixes(ctx) + run_cli_directed(ctx)
+    from .. import fullparse as _fp
+    n4 += _fp.check_files(ctx, 'c08file', 2500 if thorough else 500)      # acceptance / rejection of whole files: Model/FullParse.v against rules_file
     ctx.coverage['distinct_nontrivial'] = n1 + n2 + n3 + n4
     ctx.coverage['rule'] = ('correspondence: generated programs with every feature on (rule-reference cycles 4%, captures, functions with arguments that select nothing or have the '
                             'wrong type, literal left-hand sides, chained filters, filters after this/index) x documents; fuzz: generated (rules, data, test spec, payload, parameter '
                             'file) with 1..3 text mutations applied to one of them, each through validate (3 modes), parse-tree, test, rulegen, --payload and run_checks')
     ctx.coverage['trusted_base'] = [
         'Coq 8.16.1 kernel (coqc), vm_compute for case evaluation and the divergence witnesses; no axioms',
-        'hand-written model SEval.v/Operators.v/Functions.v (modelled, not verified); panic-site inventory tools/gv/inventory.py vs /verif/inventory/panic.json',
+        'hand-written model SEval.v/Operators.v/Functions.v, FullParse.v for the acceptance of whole files (modelled, not verified; hooks eval_dump, ast_dump); panic-site inventory tools/gv/inventory.py vs /verif/inventory/panic.json',
         'fuzzing and child-process exit statuses: a search, never counted as an obligation',
     ]
     ctx.assumptions = ['nesting depth of generated inputs is bounded; stack exhaustion on deeply nested input is not searched for',
